@@ -123,7 +123,7 @@ fn main() {
             use std::io::Write;
             let out = std::io::stdout();
             for h in inputs {
-                let bytes = unhex(&h);
+                let bytes = unhex(h.trim_start_matches("h:"));
                 let text = match String::from_utf8(bytes) {
                     Ok(t) => t,
                     Err(_) => {
